@@ -279,7 +279,7 @@ impl Property for C12 {
         "C12"
     }
     fn rule(&self) -> String {
-        "growth: 8 families of programs whose length grows linearly with n (chains of aliases / records / locals / inputs that name the previous definition twice, many outputs reading one input, many txs) are parsed and analysed for n = 4, 6, .. 40 and the thread CPU time must not triple twice in a row per step of 2; grammar: random expansions (depth <= 12, implicit whitespace / comments between tokens of non-atomic rules) of tx3.pest itself, read with pest_meta at run time, so every rule the grammar accepts is exercised; mutation: 12 token-level mutators (delete, duplicate, swap, splice, numeral / hex stretching, multi-byte insertion, keyword / punctuation replacement, truncation, block duplication, renaming) applied 1..3 times to the example corpus and to generated programs; nesting (exhaustive): 30 recursive constructs x depth 1..64. Oracle: parse_string returns Ok or Err and analyze returns, observed through the panic hook / worker signals / watchdog; termination of the parser is decided on logical steps (pest call limit 2e6 + 5000 per input byte; the valid corpus needs ~5 calls per byte). Non-trivial: the input parses, or fails beyond its first line; distinct = distinct input texts.".into()
+        "growth: 8 families of programs whose length grows linearly with n (chains of aliases / records / locals / inputs that name the previous definition twice, many outputs reading one input, many txs) are parsed and analysed for n = 4, 6, .. 40 and the thread CPU time must not triple twice in a row per step of 2; grammar: random expansions (depth <= 12, implicit whitespace / comments between tokens of non-atomic rules) of tx3.pest itself, read with pest_meta at run time, so every rule the grammar accepts is exercised; mutation: 12 token-level mutators (delete, duplicate, swap, splice, numeral / hex stretching, multi-byte insertion, keyword / punctuation replacement, truncation, block duplication, renaming) applied 1..3 times to the example corpus and to generated programs; nesting (exhaustive): 30 recursive constructs x depth 1..64 (and 4..9 of those depths once more through an unoptimised probe binary on a 2 MiB thread). Oracle: parse_string returns Ok or Err and analyze returns, observed through the panic hook / worker signals / watchdog; termination of the parser is decided on logical steps (pest call limit 2e6 + 5000 per input byte; the valid corpus needs ~5 calls per byte). Non-trivial: the input parses, or fails beyond its first line; distinct = distinct input texts.".into()
     }
     fn assumptions(&self) -> Vec<String> {
         vec![
@@ -331,12 +331,43 @@ impl Property for C12 {
         }
     }
     fn required_features(&self, _tier: Tier) -> Vec<String> {
-        ["growth/probed", "outcome/parsed", "outcome/parse-error", "outcome/analysed-clean", "grammar/parsed", "mutator/stretch-number", "mutator/hex-literal", "mutator/multibyte", "rule/variant_case_tuple", "rule/bitcoin_block", "rule/cardano_stake_delegation_certificate", "rule/utxo_ref"]
+        ["growth/probed", "outcome/parsed", "outcome/parse-error", "outcome/analysed-clean", "grammar/parsed", "mutator/stretch-number", "mutator/hex-literal", "mutator/multibyte", "rule/variant_case_tuple", "rule/bitcoin_block", "rule/cardano_stake_delegation_certificate", "rule/utxo_ref", "stack-probe/returned"]
             .iter()
             .map(|s| s.to_string())
             .collect()
     }
     fn supervisor_phase(&self, ctx: &mut Ctx, env: &Env) {
+        // the nesting sweep once more through an *unoptimised* build on a 2 MiB thread (what `cargo test` /
+        // a server's worker thread has): a stack overflow aborts the process there long before it does in
+        // the optimised harness on the main thread
+        let depths: &[usize] = if ctx.tier == Tier::Quick { &[8, 24, 40, 64] } else { &[4, 8, 16, 24, 32, 40, 48, 56, 64] };
+        let mut inputs: Vec<(String, Vec<u8>)> = vec![];
+        for n in NESTS {
+            for d in depths {
+                inputs.push((format!("{}@{d}", n.name), (n.build)(*d).into_bytes()));
+            }
+        }
+        match stack_probe(env, "C12", true, &inputs) {
+            None => ctx.inconclusive("stack-probe:unusable"),
+            Some(results) => {
+                for (name, o) in results {
+                    ctx.eval();
+                    ctx.nontrivial_str(&format!("stack-probe:{name}"));
+                    match o {
+                        ProbeOutcome::Ok | ProbeOutcome::Err => ctx.count("stack-probe/returned"),
+                        ProbeOutcome::Panic => {
+                            ctx.count("stack-probe/panic");
+                            ctx.violation("front-end-panic:dev-profile:2MiB-thread", json!({"input": name}));
+                        }
+                        ProbeOutcome::Killed(sig) => {
+                            ctx.count("stack-probe/abort");
+                            let construct = name.split('@').next().unwrap_or("?").to_string();
+                            ctx.violation(format!("abort:signal:{sig}:front-end:dev-profile:2MiB-thread:{construct}"), json!({"input": name, "what": "parse_string + analyze on a 2 MiB thread in an unoptimised build was killed by a signal (stack overflow) at nesting depth <= 64"}));
+                        }
+                    }
+                }
+            }
+        }
         if ctx.tier == Tier::Thorough {
             // pest slices the input unchecked and the AST builders index into pairs: the same inputs under Miri
             miri_cross_run(ctx, env, "C12", &[MiriPlan { phase: "mutation", cases: 160 }, MiriPlan { phase: "nesting", cases: (NESTS.len() * 64) as u64 / 13 }, MiriPlan { phase: "grammar", cases: 48 }], 600);
